@@ -76,6 +76,10 @@ Logged ==
     \/ IsEvent("SecStandbyWake") /\ Early /\ Late /\ SecStandbyWake(Ev.r) /\ urgent' = FALSE
     \/ IsEvent("SecExecStart") /\ Early /\ Late /\ SecExecStart /\ UNCHANGED urgent
     \/ IsEvent("Cancel") /\ Cancel /\ UNCHANGED urgent
+    \* the harness saw no return within 3 s of cancelling the context of a caller that sits in its select while both
+    \* branches are held: with ctxDone the caller's CallerCtx step is enabled and nothing else can run, so this event
+    \* is never explained (the call must end when the caller's context ends)
+    \/ IsEvent("CancelIgnored") /\ ~ctxDone /\ UNCHANGED <<vars, urgent>>
     \/ IsEvent("Return") /\ cpc = "done" /\ result = Ev.res /\ UNCHANGED <<vars, urgent>>
 
 Silent ==
